@@ -44,12 +44,12 @@ type crashDiv struct {
 }
 
 type crashOut struct {
-	Cases       int        `json:"cases"`
-	Images      int        `json:"images"`
-	TornOffsets int        `json:"torn_offsets"`
-	Checks      int        `json:"checks"`
-	Divergences []crashDiv `json:"divergences"`
-	Errors      []string   `json:"errors"`
+	Cases       int            `json:"cases"`
+	Images      int            `json:"images"`
+	TornOffsets int            `json:"torn_offsets"`
+	Checks      int            `json:"checks"`
+	Divergences []crashDiv     `json:"divergences"`
+	Errors      []string       `json:"errors"`
 	PointCounts map[string]int `json:"point_counts"`
 }
 
